@@ -104,11 +104,26 @@ XE2 = {'tag': 'r', 'attrib': {'a': 'x"z', 'c': '&amp;'}, 'text': 'a < b & c > f'
     {'tag': 'c', 'attrib': {'n': '1'}, 'text': 'line1\nline3', 'children': []}, {'tag': 'd', 'attrib': {}, 'text': None, 'children': []}]}
 TE1 = [['a"b', 'c,d', 'e\nf'], ['<x>', '&', "'"]]
 TE2 = [['a"c', 'c,d', 'e\ng'], ['<y>', '&', '']]
+# control characters (an escape sequence, a bell, a form feed) in unchanged and in changed strings and keys
+C1 = {'colour': '\x1b[31mred\x1b[0m', 'bell': 'ding\x07', 'list': ['\x0c', 'plain', 'a\x1fb'], 'k\x01': 'v'}
+C2 = {'colour': '\x1b[32mgreen\x1b[0m', 'bell': 'ding\x07', 'list': ['\x0c', 'plane', 'a\x1fb', '\x08'], 'k\x01': 'w'}
+TC1 = [['a\x1bb', 'c'], ['\x07', 'd']]
+TC2 = [['a\x1bb', 'e'], ['\x07', 'd', '\x0c']]
+# elements that gain or lose their text: as the root, as an only child, as one of several children
+XT1 = {'tag': 'service', 'attrib': {}, 'text': None, 'children': [{'tag': 'status', 'attrib': {}, 'text': None, 'children': []}]}
+XT2 = {'tag': 'service', 'attrib': {}, 'text': None, 'children': [{'tag': 'status', 'attrib': {}, 'text': 'degraded', 'children': []}]}
+XT3 = {'tag': 'status', 'attrib': {}, 'text': None, 'children': []}
+XT4 = {'tag': 'status', 'attrib': {}, 'text': 'up', 'children': []}
+XT5 = {'tag': 'r', 'attrib': {'a': '1'}, 'text': 'gone', 'children': [
+    {'tag': 'x', 'attrib': {}, 'text': 'was', 'children': []}, {'tag': 'y', 'attrib': {}, 'text': None, 'children': []}]}
+XT6 = {'tag': 'r', 'attrib': {'a': '1'}, 'text': None, 'children': [
+    {'tag': 'x', 'attrib': {}, 'text': None, 'children': []}, {'tag': 'y', 'attrib': {}, 'text': 'now', 'children': []}]}
 FIXED = {
-    'json': [(J1, J2), (J3, J4), (E1, E2)], 'json5': [(J1, J2), (J3, J4), (E1, E2)],
-    'yaml': [(J1, J2), (K1, K2), (E1, E2)], 'pickle': [(J1, J2), (K1, K2), (E1, E2)],
-    'plist': [(P1, P2), ([1, 'a'], ['a', 1, 2.5]), (PE1, PE2)], 'csv': [(T1, T2), ([['x']], [['x', 'y'], []]), (TE1, TE2)],
-    'xml': [(X1, X2), (X3, X4), (XE1, XE2)], 'html': [(X3, X4), (X1, X2), (XE1, XE2)],
+    'json': [(J1, J2), (J3, J4), (E1, E2), (C1, C2)], 'json5': [(J1, J2), (J3, J4), (E1, E2), (C1, C2)],
+    'yaml': [(J1, J2), (K1, K2), (E1, E2), (C1, C2)], 'pickle': [(J1, J2), (K1, K2), (E1, E2), (C1, C2)],
+    'plist': [(P1, P2), ([1, 'a'], ['a', 1, 2.5]), (PE1, PE2)], 'csv': [(T1, T2), ([['x']], [['x', 'y'], []]), (TE1, TE2), (TC1, TC2)],
+    'xml': [(X1, X2), (X3, X4), (XE1, XE2), (XT1, XT2), (XT3, XT4), (XT5, XT6)],
+    'html': [(X3, X4), (X1, X2), (XE1, XE2), (XT1, XT2), (XT4, XT3), (XT5, XT6)],
 }
 
 
@@ -123,6 +138,7 @@ def doc_strategy(inp):
     esc = st.sampled_from(['"', '\\', 'a\nb', '<&>', "'", 'x"y', '&amp;', '\t', 'é'])
     if inp == 'plist':
         return gen.doc_pairs(8, 3, st.one_of(gen.plist_scalars, esc))
+    esc = st.one_of(esc, st.sampled_from(['\x1b[1m', '\x07', 'a\x0cb', '\x7f']))
     if inp in ('yaml', 'pickle'):
         leaf = st.one_of(gen.scalars, esc)
         kk = st.one_of(gen.keys, st.integers(0, 3), st.sampled_from([2.5, True]))
